@@ -154,6 +154,33 @@ fn library_block(ctx: &Ctx) {
                 _ => ctx.violation("C08:library:reference-cannot-decode", case()),
             }
         }
+        // the API takes the two ephemeral halves as separate Options: with only one of them given the file
+        // must still reveal nothing (and still be a conforming file for the recipient)
+        for halves in [EHalves::PrivateOnly, EHalves::PublicOnly] {
+            E_HALVES.with(|h| h.set(halves));
+            let fh = key_encrypt_run(&pt, &io, &KeyEnc { s_priv: &s1, s_pub: &s1p, r_pub: &r1p, e_priv: Some(e), payload: Some(pl) });
+            E_HALVES.with(|h| h.set(EHalves::Consistent));
+            ctx.eval();
+            let case2 = || {
+                let mut v = case();
+                v["ephemeral_arguments"] = json!(format!("{:?}", halves));
+                v["file_head"] = json!(hex(&fh.out[..52.min(fh.out.len())]));
+                v
+            };
+            if !fh.outcome.is_ok() {
+                ctx.violation("C08:library:encrypt-failed", case2());
+                continue;
+            }
+            if !scan(ctx, "library", &fh.out, &needles, &case2) {
+                continue;
+            }
+            match refspec::decode_key_file(&fh.out, &r1, &r1p) {
+                Ok(d) if d.body.complete() && d.body.plaintext() == pt && d.sender == s1p && fh.out.len() == 132 + 32 * d.body.chunks.len() + len => {
+                    ctx.seen(&format!("key mode with {:?} ephemeral argument: scan + length law ok", halves));
+                }
+                _ => ctx.violation("C08:library:file-with-half-ephemeral-arguments-is-not-conforming", case2()),
+            }
+        }
         if i == 3 {
             ctx.sample("identity swap pair", 1, || {
                 let mut v = case();
@@ -251,4 +278,6 @@ pub fn run(ctx: &Ctx) {
     ctx.require("key mode: scan + length law + identity swap ok", 50);
     ctx.require("password mode: length law", 10);
     ctx.require("cli: scan + length law ok", 5);
+    ctx.require("key mode with PrivateOnly ephemeral argument", 20);
+    ctx.require("key mode with PublicOnly ephemeral argument", 20);
 }
